@@ -13,13 +13,13 @@ CODEC = 'cssutils/codec.py'
 
 
 def run(chk):
-    r07a(chk)
-    r07b(chk)
-    r07c(chk)
-    r07d(chk)
-    r07e(chk)
-    r07f(chk)
-    r07g(chk)
+    chk.attempt(r07a, chk)
+    chk.attempt(r07b, chk)
+    chk.attempt(r07c, chk)
+    chk.attempt(r07d, chk)
+    chk.attempt(r07e, chk)
+    chk.attempt(r07f, chk)
+    chk.attempt(r07g, chk)
 
 
 # ---------------------------------------------------------------------------
